@@ -136,12 +136,14 @@ def check_state(desc, sc, pats, flagsets, res, bash=True, names_tag='std'):
 
 
 ODD_TREE = ['a\\', 'b', 'd\\/', 'd\\/x', '*', '[', 'a]', '!(', '{a,b}', 'a|b', '~', '-a', 'sp ace', 'e/', 'e/a\\', 'e/*', '.h\\',
-            '@(a/', '@(a/b)', '+(x/', '+(x/y)', '@(a/c', 'b\n', 'e/b\n', 'b\n\n', 'zl\xe9/', 'zl\xe9/a', 'zl\xe9/s/', 'zl\xe9/s/z\xe9\xe9']
+            '@(a/', '@(a/b)', '+(x/', '+(x/y)', '@(a/c', 'b\n', 'e/b\n', 'b\n\n', 'zl\xe9/', 'zl\xe9/a', 'zl\xe9/s/', 'zl\xe9/s/z\xe9\xe9', '+(x/bcd']
 ODD_PATS = ['*', '?*', '**', '[!a]*', '*/', '*/*', '**/*', '??', '*\\\\', 'e/*', 'e//*', '*//', 'e//', '**//*', 'e///a\\\\', './/e//*',
-            '?', '[ab]', 'b', 'e/?', '*/[ab]', '**/b', 'b?', '[ab][!a]', 'zl\xe9/*', 'zl\xe9/*/', 'zl\xe9/s/*', '*/s/z\xe9\xe9', '**/z\xe9\xe9', 'zl\xe9/**']
+            '?', '[ab]', 'b', 'e/?', '*/[ab]', '**/b', 'b?', '[ab][!a]', 'zl\xe9/*', 'zl\xe9/*/', 'zl\xe9/s/*', '*/s/z\xe9\xe9', '**/z\xe9\xe9', 'zl\xe9/**',
+            # an extended group that is never closed is ordinary text, also when a bracket expression follows the slash
+            '+(x/b[c]d', '*(x/b[c]d', '+(x/[!a]*']
 ODD_FLAGS = ['GE', 'GEO', 'GDE', 'GDEO', 'GEK', 'E', 'GEOK']
 # without EXTGLOB `@(`, `+(` ... are ordinary text (and `*`, `?` ordinary wildcards) even when a `/` and a `)` follow
-ODD_PATS_NOEXT = ['@(a/b)', '*(a/b)', '?(a/b)', '+(x/y)', '@(a/*', '*/b)', '@(a/b', '!(/b)', '*(*/*)', '@(a/c|b)']
+ODD_PATS_NOEXT = ['@(a/[b])', '@(a/b)', '*(a/b)', '?(a/b)', '+(x/y)', '@(a/*', '*/b)', '@(a/b', '!(/b)', '*(*/*)', '@(a/c|b)']
 ODD_FLAGS_NOEXT = ['G', 'GD', '', 'GO', 'GK']
 
 
